@@ -374,6 +374,25 @@ class Spec:
         self.names = {}      # name -> pattern
         self.hooks = {}      # pattern -> [rule text, simple id | None, partial id | None]
         self.tainted = set()
+        self.filters = {}    # pattern -> filter handlers of the rule that created the entry
+
+    def clash(self, pat, filters):
+        """would the tree refuse `pat` (tokens filter mismatch)?  Some survivor shares a prefix
+        with it up to a wildcard that carries another filter.  None = unknown (unspecified hooks
+        may still sit in the tree)."""
+        if self.tainted:
+            return None
+        for q in list(self.routes) + list(self.hooks):
+            fq = self.filters[q]
+            k = 0
+            for a, b in zip(pat, q):
+                if a != b:
+                    break
+                if a == G.TOKEN:
+                    if filters[k] is not fq[k]:
+                        return True
+                    k += 1
+        return False
 
     @staticmethod
     def parse(rule):
@@ -384,16 +403,32 @@ class Spec:
         return pat, filters
 
     def add(self, rule, methods, name, overwrite, hid, outcome):
-        """`outcome` = what the router said ('ok' or the exception class): parse / filter-clash
-        rejections are taken from it, method and name clashes are predicted.  Returns the
-        predicted outcome class for those two (None = no prediction)."""
+        """`outcome` = what the router said ('ok' or the exception class).  Rejections before
+        anything is registered (syntax, filter build) are taken from it; filter clashes (unless
+        unspecified hooks may sit in the tree), method clashes and name clashes are predicted.
+        Returns the predicted outcome class (None = no prediction)."""
         ms = [methods] if isinstance(methods, str) else list(methods)
         ms = [m.upper() for m in ms]
-        if outcome not in ('ok', 'RouteMethodError', 'RouteBuildError'):
-            return None                       # rejected before anything was registered
-        pat, _ = self.parse(rule)
+        if outcome not in ('ok', 'RouteMethodError', 'RouteBuildError', 'RadiDictKeyError'):
+            return None                       # rejected before anything was registered (syntax, filter build)
+        pat, flt = self.parse(rule)
         if pat.endswith('*'):
             raise Outside('registered pattern ends with the removal marker')
+        same = pat in self.routes and all(a is b for a, b in zip(flt, self.filters[pat]))
+        if same:
+            if outcome == 'RadiDictKeyError':
+                return 'ok'                   # the route is there: the tree is not even asked
+        else:
+            c = self.clash(pat, flt)          # a new tree entry: refused iff a survivor clashes
+            if c is None:
+                if outcome == 'RadiDictKeyError':
+                    return None
+            elif c:
+                return 'RadiDictKeyError'
+            elif outcome == 'RadiDictKeyError':
+                return 'ok'
+        if pat not in self.routes and pat not in self.hooks:
+            self.filters[pat] = flt
         cur = self.routes.get(pat, {})
         if not overwrite and any(m in cur for m in ms):
             return 'RouteMethodError'
@@ -436,12 +471,29 @@ class Spec:
         self._drop_names({pat})
         return 'ok'
 
+    def predict_hook(self, rule):
+        """'ok' / 'RadiDictKeyError' / None (no prediction)"""
+        try:
+            pat, flt = self.parse(rule)
+        except Outside:
+            raise
+        except Exception:
+            return None
+        if pat.startswith('/') or pat.endswith('*'):
+            return None
+        if pat in self.hooks:
+            return 'ok'                      # the pair is updated in place, filters are not compared
+        c = self.clash(pat, flt)
+        return None if c is None else ('RadiDictKeyError' if c else 'ok')
+
     def add_hook(self, rule, partial, hid, outcome):
         if outcome != 'ok':
             return
-        pat, _ = self.parse(rule)
+        pat, flt = self.parse(rule)
         if pat.endswith('*'):
             raise Outside('hook pattern ends with the removal marker')
+        if pat not in self.hooks and pat not in self.routes:
+            self.filters[pat] = flt
         h = self.hooks.setdefault(pat, [rule, None, None])
         h[2 if partial else 1] = hid
 
